@@ -32,6 +32,7 @@ type LoopSpec struct {
 	Invariants []*Clause
 	Decreases  *Clause
 	Mentions   []*Clause // ground terms introduced at the start of each iteration (E-matching hints, no logical content)
+	Reveal     []string  // opaque spec functions whose definition is visible to the obligations of this loop's body
 }
 
 type FnParamSpec struct {
@@ -66,11 +67,14 @@ type FuncContract struct {
 	SrcHash   string
 	Lits      map[string]*FuncContract // contracts of function literals "lit N"
 	Notes     []string
+	Reveal      []string // opaque spec functions revealed to every obligation of the function
 	Unreachable []string // substrings of panic messages assumed unreachable (listed as assumptions)
 }
 
 type SpecDecl struct {
-	Kind   string // sumfold, define, declare, axiom, ghost
+	Induct string // lemma: induction variable ("" = none)
+	Trig   []*SX  // lemma: trigger groups
+	Kind   string // sumfold, define, declare, axiom, ghost, lemma
 	Name   string
 	Params []QVar
 	Ret    *TypeX
@@ -93,8 +97,8 @@ type Program struct {
 }
 
 var funcKeywords = map[string]bool{"property": true, "requires": true, "ensures": true, "modifies": true, "loop": true,
-	"invariant": true, "decreases": true, "fnparam": true, "index": true, "visited": true, "opt": true, "lit": true, "note": true, "end": true, "assume-unreachable": true, "mention": true}
-var topKeywords = map[string]bool{"func": true, "assumed": true, "sumfold": true, "define": true, "declare": true, "axiom": true, "ghost": true, "function": true, "nnfold": true}
+	"invariant": true, "decreases": true, "fnparam": true, "index": true, "visited": true, "opt": true, "lit": true, "note": true, "end": true, "assume-unreachable": true, "mention": true, "reveal": true}
+var topKeywords = map[string]bool{"func": true, "assumed": true, "sumfold": true, "define": true, "declare": true, "axiom": true, "ghost": true, "function": true, "nnfold": true, "lemma": true, "opaque": true}
 
 func LoadProgram(repo string, patterns []string) (*Program, error) {
 	fset := token.NewFileSet()
@@ -310,7 +314,7 @@ func (p *Program) parseLines(pk *packages.Package, file string, raw []rawLine) {
 			fc.File = file
 			cur, root, curLoop, curFn = fc, fc, nil, nil
 			p.Order = append(p.Order, fc)
-		case "sumfold", "define", "declare", "axiom", "ghost", "function", "nnfold":
+		case "sumfold", "define", "declare", "axiom", "ghost", "function", "nnfold", "lemma", "opaque":
 			cur = nil
 			p.parseSpecDecl(pk, w, rest, l.pos)
 		default:
@@ -377,6 +381,13 @@ func (p *Program) parseLines(pk *packages.Package, file string, raw []rawLine) {
 				}
 				if c := mkClause("invariant", rest, l.pos); c != nil {
 					curLoop.Invariants = append(curLoop.Invariants, c)
+				}
+			case "reveal":
+				names := strings.FieldsFunc(rest, func(r rune) bool { return r == ',' || r == ' ' })
+				if curLoop != nil {
+					curLoop.Reveal = append(curLoop.Reveal, names...)
+				} else {
+					cur.Reveal = append(cur.Reveal, names...)
 				}
 			case "mention":
 				if curLoop == nil {
@@ -642,6 +653,51 @@ func (p *Program) resolveFunc(pk *packages.Package, fc *FuncContract) *types.Fun
 func (p *Program) parseSpecDecl(pk *packages.Package, kind, rest, pos string) {
 	sd := &SpecDecl{Kind: kind, Text: rest, Pkg: pk, Line: pos}
 	switch kind {
+	case "lemma":
+		// lemma name(params) [induction k] :: body
+		i := strings.Index(rest, "(")
+		j := strings.Index(rest, "::")
+		if i < 0 || j < 0 {
+			p.errf(pos, "bad lemma %q", rest)
+			return
+		}
+		sd.Name = strings.TrimSpace(rest[:i])
+		depth, e := 0, i
+		for ; e < len(rest); e++ {
+			if rest[e] == '(' {
+				depth++
+			} else if rest[e] == ')' {
+				depth--
+				if depth == 0 {
+					break
+				}
+			}
+		}
+		for _, part := range splitTop(rest[i+1 : e]) {
+			part = strings.TrimSpace(part)
+			if part == "" {
+				continue
+			}
+			n, t := firstWord(part)
+			ty, err := ParseTypeX(t)
+			if err != nil {
+				p.errf(pos, "%v", err)
+				return
+			}
+			sd.Params = append(sd.Params, QVar{n, ty})
+		}
+		mid := strings.Fields(rest[e+1 : j])
+		if len(mid) == 2 && mid[0] == "induction" {
+			sd.Induct = mid[1]
+		}
+		// reuse the quantifier parser for the optional trigger groups: forall $l int :: {..} body
+		x, err := ParseSpecExpr("forall lemmadummy int :: " + strings.TrimSpace(rest[j+2:]))
+		if err != nil {
+			p.errf(pos, "%v", err)
+			return
+		}
+		sd.Body = x.Args[0]
+		sd.Trig = x.Args[1:]
 	case "axiom":
 		x, err := ParseSpecExpr(rest)
 		if err != nil {
